@@ -28,6 +28,29 @@ func init() {
 			r["dest"] = map[string]any{"sera": ints(sa), "serb": ints(sb), "eq_ab": da.Equals(&db), "eq_ba": db.Equals(&da), "eq_aa": da.Equals(&da),
 				"hasha": ints(ha[:]), "hashb": ints(hb[:]), "shaa": ints(sha[:]), "shab": ints(shb[:]),
 				"b32a": ints([]byte(a32)), "b32b": ints([]byte(b32)), "b64same": a64 == b64}
+			// a caller changes the identity in place through its exported fields (one padding byte, or the signing key object when
+			// there is no padding): hash and addresses are functions of the bytes the value serialises to NOW
+			mut := map[string]any{"done": false}
+			if da.KeysAndCert != nil {
+				changed := false
+				if len(da.KeysAndCert.Padding) > 0 {
+					da.KeysAndCert.Padding[len(da.KeysAndCert.Padding)/2] ^= 0x01
+					changed = true
+				} else if db.KeysAndCert != nil && db.KeysAndCert.SigningPublic != nil && !a.Bool("samekeytype_unknown") {
+					da.KeysAndCert.SigningPublic = db.KeysAndCert.SigningPublic
+					changed = string(sa) != string(sb)
+				}
+				if changed {
+					sm, e1 := da.Bytes()
+					hm, e2 := da.Hash()
+					m32, e3 := da.Base32Address()
+					m64, e4 := da.Base64()
+					shm := sha256.Sum256(sm)
+					mut = map[string]any{"done": e1 == nil && e2 == nil && e3 == nil && e4 == nil, "ser": ints(sm), "hash": ints(hm[:]), "sha": ints(shm[:]),
+						"b32": ints([]byte(m32)), "b64": ints([]byte(m64)), "ser_changed": string(sm) != string(sa)}
+				}
+			}
+			r["dest"].(map[string]any)["mut"] = mut
 		}
 		ra, _, ea2 := router_identity.ReadRouterIdentity(ab)
 		rb, _, eb2 := router_identity.ReadRouterIdentity(bb)
